@@ -1,12 +1,14 @@
 import VrlModel.Driver.C18
 import VrlModel.Driver.Lang
 import VrlModel.Driver.Arith
+import VrlModel.Driver.C33
 
 /-- Line protocol driver: one case per line `op <tab> arg…`, one reply line per case. -/
 def handlers : List (String → List String → Option String) := [
   Driver.C18.handle,
   Driver.LangRun.handle,
-  Driver.ArithOps.handle
+  Driver.ArithOps.handle,
+  Driver.C33.handle
 ]
 
 def dispatch (op : String) (args : List String) : String :=
